@@ -757,3 +757,48 @@ func (m *zzMirrorLeaves) Choose(n string, k int) int {
 	}
 	return m.rec.chooses[i]
 }
+
+// zzTypeOffsets returns the offsets (relative to base) of every TYPE byte of the reference
+// encoding of v: field headers, list/set element types, map key/value types.
+func zzTypeOffsets(t *zzType, v *zzVal, base int, out *[]int) int {
+	switch t.K {
+	case zzBool, zzByte:
+		return base + 1
+	case zzI16:
+		return base + 2
+	case zzI32, zzEnum:
+		return base + 4
+	case zzI64, zzDouble:
+		return base + 8
+	case zzString, zzBinary:
+		return base + 4 + len(v.S)
+	case zzList, zzSet:
+		*out = append(*out, base)
+		off := base + 5
+		for _, e := range v.L {
+			off = zzTypeOffsets(t.Elem, e, off, out)
+		}
+		return off
+	case zzMap:
+		*out = append(*out, base, base+1)
+		off := base + 6
+		for i := range v.L {
+			off = zzTypeOffsets(t.Key, v.K[i], off, out)
+			off = zzTypeOffsets(t.Elem, v.L[i], off, out)
+		}
+		return off
+	case zzStructK:
+		off := base
+		for _, f := range t.St.Fields {
+			fv := v.field(f.ID)
+			if fv == nil {
+				continue
+			}
+			*out = append(*out, off)
+			off = zzTypeOffsets(f.T, fv, off+3, out)
+		}
+		*out = append(*out, off) // STOP
+		return off + 1
+	}
+	panic("zzTypeOffsets")
+}
